@@ -461,7 +461,10 @@ func (w *Worker) visitInstr(fr *frame, instr ssa.Instruction) continuation {
 			// exceed it is a violation, with a model for the offending input
 			ct := fr.get(instr.Cap).(T)
 			over := w.tb.Ugt(ct, w.tb.Const(ct.W, uint64(w.allocLimit)))
-			if !over.IsFalse() && (over.IsTrue() || w.branch(over)) {
+			// ask first for an input whose request is large enough for the native
+			// allocation meter to confirm, then for any request over the limit
+			big := w.tb.Ugt(ct, w.tb.Const(ct.W, uint64(w.allocLimit)+65536))
+			if !over.IsFalse() && (over.IsTrue() || (!big.IsFalse() && !big.IsTrue() && w.branch(big)) || w.branch(over)) {
 				if w.live() {
 					if vec := w.modelVectorChecked(); vec != nil {
 						w.recordViolation("assert", "allocation out of proportion to the input", instr.Pos(), vec, "")
